@@ -4,6 +4,7 @@ reset when a stream (re)starts."""
 from ..build import AnalysisBroken
 from ..callgraph import connects
 from ..effects import classify_use
+from .. import cfgx  # noqa: F401
 
 UNITS = ['base/Stream.cpp']
 SOCK = 'QXmpp::Private::XmppSocket'
@@ -150,3 +151,169 @@ def run(prog, run):
                     run.violation(r2, '%s::%s-slot#keeps:%s' % (SOCK, c['signal']['qname'].split('::')[-1], fld.split('::')[-1]), slot.loc(),
                                   'a new stream starts (%s) without clearing %s: leftovers of the previous stream are prepended to the new one'
                                   % (c['signal']['qname'].split('::')[-1], fld.split('::')[-1]))
+
+    r3_chunk(prog, run, ready)
+    r4_classes(prog, run, ready, accumulators)
+
+
+APPENDS = ('append', 'operator+=', 'push_back')
+
+
+def _always(fn, nid):
+    pos = fn.pos(nid)
+    return bool(pos) and (pos[0] == fn.entry or ('b', pos[0]) in fn.pdom().get(('b', fn.entry), set()))
+
+
+def r3_chunk(prog, run, ready):
+    """split-independence needs the chunk of one read to influence the receive path only through the accumulators"""
+    rid = run.rule('C03.R3', 'the chunk delivered by one read is only ever appended, unconditionally, to a member accumulator: no decision, log or event of the '
+                             'receive path looks at the chunk itself (what is decided from the accumulated text cannot depend on where reads end)', floor=2)
+    pd = prog.fn(SOCK + '::processData')
+    uses = [(i, n) for i, n in enumerate(pd.nodes) if n['k'] == 'var' and n.get('vk') == 'param' and n.get('pidx') == 0]
+    par = pd.parents()
+    run.instance(rid)
+    appended = []
+    other = []
+    for i, n in uses:
+        # climb through implicit conversions
+        j = i
+        p = par.get(j)
+        while p is not None and pd.nodes[p]['k'] in ('icast', 'cast', 'construct') and len(pd.children(p)) == 1:
+            j, p = p, par.get(p)
+        pn = pd.nodes[p] if p is not None else None
+        s = pd.sym(pn) if pn is not None and pn['k'] == 'call' else None
+        if pn is not None and pn['k'] == 'call' and s and s['name'] in APPENDS and pn.get('obj') is not None and \
+                pd.nodes[pd.skip(pn['obj'])]['k'] == 'mem' and pd.nodes[pd.skip(pn['obj'])]['f'].startswith(SOCK + '::') and j in pn.get('args', []):
+            appended.append(p)
+        elif pn is not None and pn['k'] == 'assign' and pn['op'] == '+=' and pd.nodes[pd.skip(pn['l'])]['k'] == 'mem' and pd.skip(pn['r']) == pd.skip(j):
+            appended.append(p)
+        else:
+            other.append(i)
+    if not appended:
+        run.violation(rid, 'processData#chunk-not-accumulated', pd.loc(), 'the text of a read is not appended to a member accumulator')
+    elif other:
+        run.violation(rid, 'processData#looks-at-chunk', pd.loc(other[0]),
+                      'processData inspects the text of the single read (%s) instead of the accumulated buffer: the outcome depends on where the read ended'
+                      % pd.fmt(par.get(other[0], other[0]), inline=False)[:70])
+    elif not all(_always(pd, a) for a in appended):
+        run.violation(rid, 'processData#conditional-append', pd.loc(appended[0]), 'on some path the text of a read is dropped instead of being appended to the buffer')
+    else:
+        first_branch_ok = all(pd.pos(a)[0] == pd.entry or all(pd.node_dominates(a, r) for r, _ in pd.returns()) for a in appended)
+        if first_branch_ok:
+            run.ok(rid, pd.loc(appended[0]), 'processData: the chunk is appended to %s before anything else and never used again' % pd.fmt(pd.nodes[appended[0]].get('obj', appended[0]), inline=False)[:40])
+        else:
+            run.violation(rid, 'processData#conditional-append', pd.loc(appended[0]), 'a return precedes the append of the chunk')
+    # the bytes of a read in the readyRead slot
+    for c in ready:
+        for slot in (c['target'] if c['kind'] == 'lambda' else [prog.fns.get(c['target']['usr'])]):
+            run.instance(rid)
+            par = slot.parents()
+            reads = [i for i, n in slot.calls() if slot.cname(n) in READS]
+            bad = []
+            good = []
+            for r in reads:
+                j = r
+                p = par.get(j)
+                while p is not None and slot.nodes[p]['k'] in ('icast', 'cast', 'construct') and len(slot.children(p)) == 1:
+                    j, p = p, par.get(p)
+                pn = slot.nodes[p] if p is not None else None
+                s = slot.sym(pn) if pn is not None and pn['k'] == 'call' else None
+                if pn is not None and pn['k'] == 'call' and s and s['name'] in APPENDS and pn.get('obj') is not None and slot.nodes[slot.skip(pn['obj'])]['k'] == 'mem':
+                    (good if _always(slot, p) else bad).append(p)
+                elif pn is not None and pn['k'] == 'call' and s and s.get('record') in ('QTextDecoder', 'QStringDecoder'):
+                    good.append(p)   # stateful decoder member (checked by R1)
+                else:
+                    bad.append(r)
+            if bad or not good:
+                run.violation(rid, '%s::readyRead-slot#chunk-use' % SOCK, slot.loc((bad or reads)[0]),
+                              'the bytes of a read are used other than by appending them unconditionally to the byte accumulator (%s)'
+                              % slot.fmt(par.get((bad or reads)[0], (bad or reads)[0]), inline=False)[:70])
+            else:
+                run.ok(rid, slot.loc(good[0]), 'readyRead: the bytes of a read are only appended to the byte accumulator')
+
+
+def r4_classes(prog, run, ready, accumulators):
+    """if the complete-character boundary is computed by comparing bytes with constants, those comparisons must tell the five UTF-8 byte classes apart"""
+    rid = run.rule('C03.R4', 'a hand-written complete-character boundary distinguishes the UTF-8 byte classes (ASCII, continuation, 2-, 3- and 4-byte lead): '
+                             'the bytes are only compared with constants, so two bytes no comparison separates are treated alike', floor=0)
+    REPR = {'ASCII': 0x41, 'continuation': 0xA9, '2-byte lead': 0xC3, '3-byte lead': 0xE2, '4-byte lead': 0xF0}
+    for c in ready:
+        for slot in (c['target'] if c['kind'] == 'lambda' else [prog.fns.get(c['target']['usr'])]):
+            par = slot.parents()
+            # byte reads of an accumulator: at()/operator[] on a member byte array
+            byte_reads = []
+            for i, n in slot.calls():
+                s = slot.sym(n)
+                if s and s['name'] in ('at', 'operator[]') and n.get('obj') is not None and slot.nodes[slot.skip(n['obj'])].get('f') in accumulators:
+                    byte_reads.append(i)
+            if not byte_reads:
+                run.info(rid, slot.loc(), 'no byte-wise boundary computation (stateful decoder or other scheme): rule not applicable')
+                continue
+            preds = []
+            undecidable = []
+
+            def const_of(f, nid):
+                v = f.const_value(nid)
+                return v[1] if v and v[0] in ('int', 'char') else None
+
+            def climb(f, nid, mask, depth=0):
+                """follow a byte value upwards: casts, & const, local variable, comparison with a constant"""
+                p = par.get(nid)
+                if p is None or depth > 8:
+                    undecidable.append(nid)
+                    return
+                pn = f.nodes[p]
+                if pn['k'] in ('icast', 'cast') or (pn['k'] == 'construct' and len(f.children(p)) == 1):
+                    return climb(f, p, mask, depth + 1)
+                bo = f.binop(p)
+                if bo and bo[0] == '&':
+                    other = bo[2] if f.skip(bo[1]) == f.skip(nid) or bo[1] == nid else bo[1]
+                    cv = const_of(f, other)
+                    if cv is None:
+                        undecidable.append(p)
+                        return
+                    return climb(f, p, (mask & cv), depth + 1)
+                if bo and bo[0] in ('<', '<=', '>', '>=', '==', '!='):
+                    left = (f.skip(bo[1]) == f.skip(nid) or bo[1] == nid)
+                    cv = const_of(f, bo[2] if left else bo[1])
+                    if cv is None:
+                        undecidable.append(p)
+                        return
+                    op = bo[0] if left else {'<': '>', '>': '<', '<=': '>=', '>=': '<=', '==': '==', '!=': '!='}[bo[0]]
+                    preds.append((mask, op, cv, p))
+                    return
+                if pn['k'] == 'decl':
+                    for d in pn['decls']:
+                        if d.get('init') is not None and f.skip(d['init']) == f.skip(nid):
+                            for j, m in enumerate(f.nodes):
+                                if m['k'] == 'var' and m.get('decl') == d['var']:
+                                    climb(f, j, mask, depth + 1)
+                            return
+                undecidable.append(p)
+
+            for b in byte_reads:
+                climb(slot, b, 0xFF)
+            run.instance(rid)
+            if undecidable:
+                run.info(rid, slot.loc(undecidable[0]), 'bytes of the accumulator are used other than in comparisons with constants (%s): the class partition is not decidable '
+                                                         'by this rule' % slot.fmt(undecidable[0], inline=False)[:60])
+                run.ok(rid, slot.loc(), 'not applicable (bytes flow into arithmetic or calls)', nontrivial=False)
+                continue
+
+            def holds(b, pr):
+                mask, op, cv, _ = pr
+                v = b & mask
+                return {'<': v < cv, '<=': v <= cv, '>': v > cv, '>=': v >= cv, '==': v == cv, '!=': v != cv}[op]
+            merged = []
+            names = list(REPR)
+            for a in range(len(names)):
+                for b2 in range(a + 1, len(names)):
+                    if all(holds(REPR[names[a]], pr) == holds(REPR[names[b2]], pr) for pr in preds):
+                        merged.append((names[a], names[b2]))
+            if merged:
+                a, b2 = merged[-1]
+                run.violation(rid, '%s::readyRead-slot#byte-classes#%s=%s' % (SOCK, a.replace(' ', '-'), b2.replace(' ', '-')), slot.loc(preds[0][3] if preds else None),
+                              'no comparison tells a %s byte from a %s byte (%d comparisons on accumulator bytes): a character of that length cut by a read boundary is '
+                              'decoded before it is complete (or held back although complete)' % (a, b2, len(preds)))
+            else:
+                run.ok(rid, slot.loc(), '%d byte comparisons separate ASCII / continuation / 2- / 3- / 4-byte lead bytes' % len(preds))
